@@ -119,6 +119,44 @@ def prologue_check(d, tier, coq, build):
     return []
 
 
+def refs_check(d, tier, coq, build):
+    """every reference string the destination was asked to set during a Copy is CopyTop.eff_ref srcRef dstRef"""
+    want = 1500 if tier == "thorough" else 300
+    goals, seen = [], set()
+    def lit(h):
+        if h == "-":
+            return "[]"
+        return "[" + "; ".join(str(int(h[i:i + 2], 16)) for i in range(0, len(h), 2)) + "]%N"
+    with open(os.path.join(d, "cases.txt")) as f:
+        for l in f:
+            i, _, c = l.rstrip("\n").partition(" ")
+            rs = [x for x in c.split(" ") if x.startswith("rs=")]
+            if not rs or rs[0] in seen:
+                continue
+            seen.add(rs[0])
+            src, dst, used = rs[0][3:].split(":")
+            for u in sorted(set(used.split("+"))):
+                goals.append((i, "eff_ref %s %s = %s" % (lit(src), lit(dst), lit(u))))
+            if len(goals) >= want:
+                break
+    vdir = os.path.join(build, "vm")
+    os.makedirs(vdir, exist_ok=True)
+    vf = os.path.join(vdir, "GC01_refs.v")
+    with open(vf, "w") as f:
+        f.write(_PRO_PRELUDE)
+        for i, g in goals:
+            f.write("\n(* %s *)\nGoal %s.\nProof. vm_compute. reflexivity. Qed.\n" % (i, g))
+    p = subprocess.run(["coqc", "-R", coq, "Oras", "-w", "-notation-overridden", vf], cwd=vdir, timeout=900,
+                       stdout=subprocess.PIPE, stderr=subprocess.STDOUT, text=True)
+    with open(os.path.join(d, "refs_check.txt"), "w") as f:
+        f.write("%d goals rc=%d\n%s" % (len(goals), p.returncode, p.stdout[-3000:]))
+    if p.returncode != 0:
+        return ["reference check: a reference string given to dst.Tag / dst.PushReference is not CopyTop.eff_ref srcRef dstRef: %s" % p.stdout[-600:]]
+    if len(goals) < 3:
+        return ["reference check: only %d goals" % len(goals)]
+    return []
+
+
 def links_check(d, tier, coq, build):
     """every distinct generated graph: the regenerated link schema applied to the generator's fields gives the
     successor lists and flags that the acceptor was run with (vm_compute inside Coq)"""
@@ -272,6 +310,6 @@ def vm_sample(gen):
         if len(goals) < min(want, 20):
             return ["in-Coq re-evaluation: only %d cases could be sampled" % len(goals)]
         if gen == "GC01":
-            return links_check(d, tier, coq, build) + prologue_check(d, tier, coq, build)
+            return links_check(d, tier, coq, build) + prologue_check(d, tier, coq, build) + refs_check(d, tier, coq, build)
         return []
     return hook
